@@ -1278,7 +1278,7 @@ impl<'de, R: Read<'de>> Parser<R> {
                 }
                 _ => {
                     if radix == 10 {
-                        return self.f64_from_parts(pos, significand, exponent);
+                        return self.f64_from_parts_or_eof(pos, significand, exponent);
                     }
                     // The digits that did not fit into the significand only count as
                     // powers of the radix (not of ten).
@@ -1369,7 +1369,7 @@ impl<'de, R: Read<'de>> Parser<R> {
 
         match self.peek_or_null()? {
             b'e' | b'E' => self.parse_exponent(pos, significand, exponent),
-            _ => self.f64_from_parts(pos, significand, exponent),
+            _ => self.f64_from_parts_or_eof(pos, significand, exponent),
         }
     }
 
@@ -1421,7 +1421,24 @@ impl<'de, R: Read<'de>> Parser<R> {
             starting_exp.saturating_sub(exp)
         };
 
-        self.f64_from_parts(positive, significand, final_exp)
+        if positive_exp {
+            self.f64_from_parts(positive, significand, final_exp)
+        } else {
+            self.f64_from_parts_or_eof(positive, significand, final_exp)
+        }
+    }
+
+    // A literal that is out of range where the input ends may be the beginning of one that is
+    // not -- an exponent, or further digits of a negative exponent, can still follow (`1000...0`
+    // with 400 digits is a prefix of `1000...0e-200`). That is a truncated input, not a malformed
+    // one.
+    fn f64_from_parts_or_eof(&mut self, pos: bool, significand: u64, exponent: i32) -> Result<f64> {
+        match self.f64_from_parts(pos, significand, exponent) {
+            Err(e) if e.is_syntax() && self.peek()?.is_none() => {
+                Err(self.peek_error(ErrorCode::EofWhileParsingValue))
+            }
+            result => result,
+        }
     }
 
     // This cold code should not be inlined into the middle of the hot
